@@ -12,7 +12,8 @@
 (*                                                                         *)
 (* Lexical level (Graphviz scan.l): identifiers, numerals, double-quoted   *)
 (* strings in which only \" and \\ are pairs, HTML strings <...> with      *)
-(* nested angle brackets, // and block comments.                           *)
+(* nested angle brackets (closed tags, well-formed entities), // and block *)
+(* comments.                                                               *)
 (* Syntactic level (Graphviz grammar.y): [strict] (graph|digraph) [ID]     *)
 (* { stmt_list }, node / edge / attr statements, ID = ID, subgraphs,       *)
 (* attribute lists [k=v (,|;)? ...], ports.                                *)
@@ -52,7 +53,7 @@ MaxBuf == 10
 \* was a `{` that opened a level; fin: the outermost level was closed by `}`
 \* (Graphviz ignores the rest); bad: "bad label format".
 
-RecInit == [ms |-> << {} >>, esc |-> FALSE, open |-> FALSE, fin |-> FALSE, bad |-> FALSE, nbar |-> 0]
+RecInit == [ms |-> << {} >>, esc |-> FALSE, open |-> FALSE, fin |-> FALSE, bad |-> FALSE, nbar |-> 0, h |-> 0]
 
 RTop(r) == r.ms[Len(r.ms)]
 RSet(r, m) == [r EXCEPT !.ms[Len(r.ms)] = m, !.open = FALSE, !.esc = FALSE]
@@ -103,7 +104,11 @@ RecordOK(s) == ~RecEndBad(RecRun(RecInit, s, 1))
 Init0 ==
   [lex    |-> "ws",      \* ws id num minus str stresc html slash lcom bcom bcomstar
    buf    |-> <<>>,      \* lower-cased text of the current identifier (first MaxBuf characters)
+   idh    |-> 0,         \* hash of the whole current identifier / numeral
+   nid    |-> 0,         \* hash of the identifier the current statement starts with
+   ids    |-> {},        \* hashes of the identifiers of the node statements with an attribute list
    hd     |-> 0,         \* nesting of < > inside an HTML string
+   hx     |-> [tag |-> "", sl |-> FALSE, el |-> 0, ent |-> 0],   \* see HtmlStep
    rec    |-> RecInit,   \* record automaton over the current quoted string
    ps     |-> "top0",    \* parser state
    stk    |-> <<>>,      \* open braces: "G" graph body, "Sn"/"Se" subgraph (inside a plain / an edge statement)
@@ -133,7 +138,8 @@ IsName(tk) == IsIdTok(tk) /\ (tk.k # "id" \/ tk.t \in {"plain", "label", "shape"
 \* a statement is complete: count it, check the record label of a node statement
 EndStmt(cfg) ==
   LET c1 == CASE cfg.stmt = "node" /\ cfg.ps = "sI"  -> [cfg EXCEPT !.bare = @ + 1]
-              [] cfg.stmt = "node"                     -> [cfg EXCEPT !.nodes = @ + 1, !.bars = @ + cfg.lblbar]
+              [] cfg.stmt = "node"                     -> [cfg EXCEPT !.nodes = @ + 1, !.bars = @ + cfg.lblbar,
+                                                                        !.ids = @ \cup {cfg.nid}]
               [] cfg.stmt = "edge"                     -> [cfg EXCEPT !.edges = @ + 1]
               [] cfg.stmt = "anode" /\ cfg.nshape # "inherit"
                                                        -> [cfg EXCEPT !.shrec = (cfg.nshape = "record")]
@@ -167,7 +173,7 @@ Tok(cfg, tk) ==
            [] tk.k = "id" /\ tk.t = "edge"  -> [cfg EXCEPT !.ps = "sKw", !.stmt = "aedge"]
            [] tk.k = "id" /\ tk.t = "graph" -> [cfg EXCEPT !.ps = "sKw", !.stmt = "agraph"]
            [] tk.k = "id" /\ tk.t = "subgraph" -> [cfg EXCEPT !.ps = "sSub1", !.stmt = "sub"]
-           [] IsName(tk) -> [cfg EXCEPT !.ps = "sI", !.stmt = "node"]
+           [] IsName(tk) -> [cfg EXCEPT !.ps = "sI", !.stmt = "node", !.nid = tk.h]
            [] OTHER -> Err(cfg, "statement")
     \* ---- after the first identifier of a statement
     [] ps = "sI" ->
@@ -229,7 +235,48 @@ Tok(cfg, tk) ==
 
 Punct(c) == CASE c = LB -> "{" [] c = RB -> "}" [] c = LSQ -> "[" [] c = RSQ -> "]" [] c = EQ -> "="
               [] c = SEMI -> ";" [] c = COMMA -> "," [] c = COLON -> ":" [] OTHER -> "?"
-PTok(k) == [k |-> k, t |-> "plain", bad |-> FALSE, nbar |-> 0]
+PTok(k) == [k |-> k, t |-> "plain", bad |-> FALSE, nbar |-> 0, h |-> 0]
+
+\* ---- inside an HTML string < ... >.  The DOT scanner only counts angle brackets; Graphviz then
+\* parses the text as XML.  Of that the recogniser checks: tags are closed (`<x>` ... `</x>`,
+\* `<x/>`), no `<` inside a tag, and an ampersand starts an entity `&name;` / `&#digits;`.
+\* hx.tag: "" text, "start" just after `<`, "open" / "close" / "bang" inside such a tag;
+\* hx.sl: the previous character of the tag was `/`; hx.el: open elements; hx.ent: 0 no entity,
+\* 1 after `&`, 2 inside the name
+AMP == 38   HASH == 35   BANG == 33
+HtmlInit == [tag |-> "", sl |-> FALSE, el |-> 0, ent |-> 0]
+HtmlStep(cfg, c) ==
+  LET h == cfg.hx IN
+  IF h.tag # "" THEN
+    \* inside a tag
+    CASE c = LT -> Err(cfg, "html-tag")
+      [] c = GT ->
+           LET el2 == IF h.tag = "close" THEN h.el - 1
+                      ELSE IF h.tag = "bang" \/ h.sl THEN h.el ELSE h.el + 1
+           IN IF h.tag = "start" \/ el2 < 0 THEN Err(cfg, "html-tag")
+              ELSE [cfg EXCEPT !.hd = @ - 1, !.hx = [tag |-> "", sl |-> FALSE, el |-> el2, ent |-> 0]]
+      [] h.tag = "start" ->
+           IF c = SLASH THEN [cfg EXCEPT !.hx.tag = "close"]
+           ELSE IF c = BANG THEN [cfg EXCEPT !.hx.tag = "bang"]
+           ELSE IF IsLetter(c) THEN [cfg EXCEPT !.hx.tag = "open"]
+           ELSE Err(cfg, "html-tag")
+      [] OTHER -> [cfg EXCEPT !.hx.sl = (c = SLASH)]
+  ELSE IF h.ent = 1 THEN
+    IF IsLetter(c) \/ c = HASH THEN [cfg EXCEPT !.hx.ent = 2] ELSE Err(cfg, "html-entity")
+  ELSE IF h.ent = 2 THEN
+    IF IsLetter(c) \/ IsDigit(c) THEN cfg
+    ELSE IF c = SEMI THEN [cfg EXCEPT !.hx.ent = 0] ELSE Err(cfg, "html-entity")
+  ELSE
+    CASE c = LT  -> [cfg EXCEPT !.hd = @ + 1, !.hx.tag = "start"]
+      [] c = GT  -> \* the end of the HTML string
+                    IF h.el # 0 THEN Err(cfg, "html-tag")
+                    ELSE Tok([cfg EXCEPT !.lex = "ws", !.hd = 0],
+                             [k |-> "html", t |-> "plain", bad |-> FALSE, nbar |-> 0, h |-> 0])
+      [] c = AMP -> [cfg EXCEPT !.hx.ent = 1]
+      [] OTHER   -> cfg
+
+\* identifiers are told apart by a hash of all their characters (node ids are long numerals)
+Hash(h, c) == (h * 31 + c) % 1000003
 
 \* ---- one character
 RECURSIVE Step(_, _)
@@ -238,28 +285,28 @@ Step(cfg, c) ==
   LET lx == cfg.lex IN
   CASE lx = "ws" ->
          CASE IsWS(c) -> cfg
-           [] IsLetter(c) -> [cfg EXCEPT !.lex = "id", !.buf = <<Lower(c)>>]
-           [] IsDigit(c) \/ c = DOT -> [cfg EXCEPT !.lex = "num"]
-           [] c = MINUS -> [cfg EXCEPT !.lex = "minus"]
+           [] IsLetter(c) -> [cfg EXCEPT !.lex = "id", !.buf = <<Lower(c)>>, !.idh = Hash(0, c)]
+           [] IsDigit(c) \/ c = DOT -> [cfg EXCEPT !.lex = "num", !.idh = Hash(0, c)]
+           [] c = MINUS -> [cfg EXCEPT !.lex = "minus", !.idh = Hash(0, c)]
            [] c = DQ -> [cfg EXCEPT !.lex = "str", !.rec = RecInit]
-           [] c = LT -> [cfg EXCEPT !.lex = "html", !.hd = 1]
+           [] c = LT -> [cfg EXCEPT !.lex = "html", !.hd = 1, !.hx = [tag |-> "", sl |-> FALSE, el |-> 0, ent |-> 0]]
            [] c = SLASH -> [cfg EXCEPT !.lex = "slash"]
            [] Punct(c) # "?" -> Tok(cfg, PTok(Punct(c)))
            [] OTHER -> Err(cfg, "character")
     [] lx = "id" ->
          IF IsLetter(c) \/ IsDigit(c)
-         THEN [cfg EXCEPT !.buf = IF Len(@) < MaxBuf THEN Append(@, Lower(c)) ELSE @]
-         ELSE Step(Tok([cfg EXCEPT !.lex = "ws"], [k |-> "id", t |-> TextClass(cfg.buf), bad |-> FALSE, nbar |-> 0]), c)
+         THEN [cfg EXCEPT !.buf = IF Len(@) < MaxBuf THEN Append(@, Lower(c)) ELSE @, !.idh = Hash(@, c)]
+         ELSE Step(Tok([cfg EXCEPT !.lex = "ws"], [k |-> "id", t |-> TextClass(cfg.buf), bad |-> FALSE, nbar |-> 0, h |-> cfg.idh]), c)
     [] lx = "num" ->
-         IF IsDigit(c) \/ c = DOT THEN cfg
-         ELSE Step(Tok([cfg EXCEPT !.lex = "ws"], [k |-> "id", t |-> "plain", bad |-> FALSE, nbar |-> 0]), c)
+         IF IsDigit(c) \/ c = DOT THEN [cfg EXCEPT !.idh = Hash(@, c)]
+         ELSE Step(Tok([cfg EXCEPT !.lex = "ws"], [k |-> "id", t |-> "plain", bad |-> FALSE, nbar |-> 0, h |-> cfg.idh]), c)
     [] lx = "minus" ->
          CASE c = GT -> Tok([cfg EXCEPT !.lex = "ws"], PTok("->"))
            [] c = MINUS -> Tok([cfg EXCEPT !.lex = "ws"], PTok("--"))
-           [] IsDigit(c) \/ c = DOT -> [cfg EXCEPT !.lex = "num"]
+           [] IsDigit(c) \/ c = DOT -> [cfg EXCEPT !.lex = "num", !.idh = Hash(@, c)]
            [] OTHER -> Err(cfg, "character")
     [] lx = "str" ->
-         CASE c = DQ -> Tok([cfg EXCEPT !.lex = "ws"], [k |-> "str", t |-> "plain", bad |-> RecEndBad(cfg.rec), nbar |-> cfg.rec.nbar])
+         CASE c = DQ -> Tok([cfg EXCEPT !.lex = "ws"], [k |-> "str", t |-> "plain", bad |-> RecEndBad(cfg.rec), nbar |-> cfg.rec.nbar, h |-> 0])
            [] c = BS -> [cfg EXCEPT !.lex = "stresc"]
            [] OTHER -> [cfg EXCEPT !.rec = RecFeed(@, c)]
     [] lx = "stresc" ->
@@ -269,11 +316,7 @@ Step(cfg, c) ==
            [] c = NL -> [cfg EXCEPT !.lex = "str"]
            [] c = BS -> [cfg EXCEPT !.lex = "str", !.rec = RecFeed(RecFeed(@, BS), BS)]
            [] OTHER -> [cfg EXCEPT !.lex = "str", !.rec = RecFeed(RecFeed(@, BS), c)]
-    [] lx = "html" ->
-         CASE c = LT -> [cfg EXCEPT !.hd = @ + 1]
-           [] c = GT -> IF cfg.hd = 1 THEN Tok([cfg EXCEPT !.lex = "ws", !.hd = 0], [k |-> "html", t |-> "plain", bad |-> FALSE, nbar |-> 0])
-                        ELSE [cfg EXCEPT !.hd = @ - 1]
-           [] OTHER -> cfg
+    [] lx = "html" -> HtmlStep(cfg, c)
     [] lx = "slash" ->
          CASE c = SLASH -> [cfg EXCEPT !.lex = "lcom"]
            [] c = STAR -> [cfg EXCEPT !.lex = "bcom"]
